@@ -312,6 +312,68 @@ func init() {
 					}
 				}
 			}
+			// (m) input entries that exist as names and cannot be read or not even inspected - named literally, matched by a
+			// pattern, alone, before and after a readable file: status 1 (or 0 where the entry can be read after all), no panic
+			for ii, in := range []struct {
+				id    string
+				setup func()
+				ok    bool // the entry is readable in the end
+			}{
+				{"dangling-symlink", func() { os.Symlink("nowhere.yaml", "in-x.yaml") }, false},
+				{"self-loop-symlink", func() { os.Symlink("in-x.yaml", "in-x.yaml") }, false},
+				{"two-link-loop", func() { os.Symlink("in-y.yaml", "in-x.yaml"); os.Symlink("in-x.yaml", "in-y.yaml") }, false},
+				{"directory", func() { os.MkdirAll("in-x.yaml/sub", 0o755) }, false},
+				{"symlink-to-a-directory", func() { os.MkdirAll("d", 0o755); os.Symlink("d", "in-x.yaml") }, false},
+				{"symlink-to-a-valid-file", func() {
+					os.WriteFile("target", []byte("parameters: {q: 1}\n"), 0o644)
+					os.Symlink("target", "in-x.yaml")
+				}, true},
+				{"symlink-into-a-file", func() { os.WriteFile("target", []byte("x"), 0o644); os.Symlink("target/below", "in-x.yaml") }, false},
+				{"empty-file", func() { os.WriteFile("in-x.yaml", nil, 0o644) }, true},
+				{"dev-null-link", func() { os.Symlink("/dev/null", "in-x.yaml") }, true},
+				{"very-long-link-target", func() { os.Symlink(strings.Repeat("t", 255), "in-x.yaml") }, false},
+			} {
+				for _, shape := range []string{"literal", "pattern", "literal-after-valid", "pattern-with-valid", "literal-before-valid"} {
+					for _, flags := range [][]string{nil, {"--quiet", "--stub"}} {
+						ii, in, shape, flags := ii, in, shape, flags
+						id := fmt.Sprintf("input-entry/%d-%s/%s/%v", ii, in.id, shape, flags)
+						w.Case(id, func(c *C) {
+							w.FreshDir()
+							os.WriteFile("in-a.yaml", []byte(valid), 0o644)
+							in.setup()
+							var args []string
+							switch shape {
+							case "literal":
+								args = []string{"-i", "in-x.yaml"}
+							case "pattern":
+								args = []string{"-i", "in-x*"}
+							case "literal-after-valid":
+								args = []string{"-i", "in-a.yaml", "-i", "in-x.yaml"}
+							case "pattern-with-valid":
+								args = []string{"-i", "in-*.yaml"}
+							case "literal-before-valid":
+								args = []string{"-i", "in-x.yaml", "-i", "in-a.yaml"}
+							}
+							args = append(append(args, "-o", "out.go"), flags...)
+							r := Tool("1.0.0", "1.0.0 unknown", args...)
+							c.Count("runs")
+							c.Distinct("all", id)
+							c.Distinct("nontrivial", id)
+							if r.Panic != "" {
+								first := strings.SplitN(r.Panic, "\n", 2)[0]
+								c.Violation("panic:input-entry:"+compilerKey(first), fmt.Sprintf("the command panicked (%s): %s", id, r.Panic), nil, map[string]any{"args": args, "entry": in.id})
+								return
+							}
+							if !in.ok && r.Exit == 0 {
+								c.Violation("exit0-unreadable-input:"+in.id, "exit 0 although an input entry cannot be read ("+id+")", nil, map[string]any{"args": args, "entry": in.id})
+							}
+							if in.ok && r.Exit != 0 && shape != "literal" && shape != "pattern" {
+								c.Violation("readable-input-rejected:"+in.id, "exit "+fmt.Sprint(r.Exit)+" although every input entry can be read ("+id+"):\n"+r.Out, nil, map[string]any{"args": args, "entry": in.id})
+							}
+						})
+					}
+				}
+			}
 			// (d) flag presence
 			for m := 0; m < 64; m++ {
 				m := m
